@@ -58,8 +58,15 @@ StepOps ==
   THEN Eval(ND(f.node).e, f.env, S0(PadTo(Used, ND(f.node).nch))).s.ops
   ELSE <<>>
 
+(* events issued inside a module-level function (or a function nested in one) are observable only when the callee is *)
+(* converted too, i.e. under recursive conversion: they carry the flag 1, those of the function under test 0        *)
+RECURSIVE RootEnv(_)
+RootEnv(e) == IF envs[e].parent = 0 THEN e ELSE RootEnv(envs[e].parent)
+InCallee == IF envs[RootEnv(Top.env)].fn # 1 THEN 1 ELSE 0
+Flag(evs) == [j \in 1..Len(evs) |-> <<evs[j][1], evs[j][2], InCallee>>]
+
 MInit == Init /\ ulog = <<>>
-MStep == Step /\ ulog' = ulog \o StepOps
+MStep == Step /\ ulog' = ulog \o Flag(StepOps)
 MSpec == MInit /\ [][MStep]_mvars
 Report == (status[1] # "run") => PrintT(ToJson([pid |-> pid, dec |-> dec, inp |-> inp, ulog |-> ulog, log |-> log, out |-> status,
                                                xlog |-> xlog, xnode |-> xnode, xfirst |-> xfirst, delx |-> delx, oc |-> oc]))
